@@ -56,8 +56,23 @@ type beh struct {
 	Steps []step `json:"steps"`
 }
 
+// rec buffers the events of one scenario; they reach the trace file only if the scenario
+// finishes (an abandoned scenario must not leak late events into other segments).
+type rec struct {
+	mu  sync.Mutex
+	evs []ev
+}
+
+func (r *rec) Emit(e ev) {
+	r.mu.Lock()
+	r.evs = append(r.evs, e)
+	r.mu.Unlock()
+}
+
+func (r *rec) Reset() { r.Emit(ev{"ev": "reset"}) }
+
 type world struct {
-	tr      *vlib.Trace
+	tr      *rec
 	mu      sync.Mutex
 	release map[int]chan struct{}
 	started map[int]bool
@@ -67,6 +82,7 @@ type world struct {
 	p           *rawh2.Peer
 	eof         chan struct{}
 	nGoAway     atomic.Int32
+	tGa1        time.Time // (virtual) instant at which the heads-up GOAWAY arrived = the drain timer was armed
 }
 
 func (w *world) rel(id int) chan struct{} {
@@ -137,6 +153,11 @@ func (w *world) readLoop() {
 				id = big
 			}
 			w.tr.Emit(ev{"ev": "sga", "id": id})
+			w.mu.Lock()
+			if w.tGa1.IsZero() {
+				w.tGa1 = time.Now()
+			}
+			w.mu.Unlock()
 			w.nGoAway.Add(1)
 		case *http2.MetaHeadersFrame:
 			if f.StreamEnded() {
@@ -149,7 +170,7 @@ func (w *world) readLoop() {
 	}
 }
 
-func runBehaviour(tr *vlib.Trace, b *beh, sum map[string]int) {
+func runBehaviour(tr *rec, b *beh, sum map[string]int, gating bool) {
 	tr.Reset()
 	w := &world{tr: tr, release: map[int]chan struct{}{}, started: map[int]bool{}, eof: make(chan struct{})}
 	lis := bufconn.Listen(1 << 20)
@@ -177,7 +198,6 @@ func runBehaviour(tr *vlib.Trace, b *beh, sum map[string]int) {
 	go func() { defer wg.Done(); w.readLoop() }()
 	stopCalled := false
 	useTimer := false
-	var tStop time.Time
 	held := false
 	// release: give loopy every chance to write the final GOAWAY while the reader is held (on the
 	// unchanged tree it blocks on maxStreamMu instead - a mutex wait is not a durable block, so
@@ -210,7 +230,7 @@ func runBehaviour(tr *vlib.Trace, b *beh, sum map[string]int) {
 				return false
 			default:
 			}
-			if st.Race != 0 && !held {
+			if st.Race != 0 && !held && gating {
 				// the reader will be held inside operateHeaders for this stream
 				gatePtr.Store(&gate{ch: make(chan struct{})})
 				held = true
@@ -224,7 +244,6 @@ func runBehaviour(tr *vlib.Trace, b *beh, sum map[string]int) {
 				return false
 			}
 			stopCalled = true
-			tStop = time.Now()
 			tr.Emit(ev{"ev": "stop"})
 			wg.Add(1)
 			go func() {
@@ -245,9 +264,15 @@ func runBehaviour(tr *vlib.Trace, b *beh, sum map[string]int) {
 			useTimer = true
 			tr.Emit(ev{"ev": "timer"})
 			if held {
-				// wake up at exactly the instant the server's drain timer fires: with the reader held,
-				// virtual time cannot advance beyond it on the unchanged tree (loopy waits on a mutex)
-				if d := time.Until(tStop.Add(5 * time.Second)); stopCalled && d > 0 {
+				// Sleeping while the reader is held is only safe if the bubble can reach the wake-up
+				// instant: on the unchanged tree loopy then waits on maxStreamMu (not a durable block), so
+				// virtual time never advances beyond the instant the drain timer fires.  Therefore: only if
+				// the heads-up GOAWAY has already arrived (loopy is past its handler, the timer is armed),
+				// and wake up at exactly the timer's instant.  Otherwise open the gate first.
+				w.mu.Lock()
+				t1 := w.tGa1
+				w.mu.Unlock()
+				if d := time.Until(t1.Add(5 * time.Second)); stopCalled && !t1.IsZero() && d > 0 {
 					time.Sleep(d)
 					release()
 					return true
@@ -345,17 +370,61 @@ func TestVerifC14Server(t *testing.T) {
 	defer runtime.GOMAXPROCS(runtime.GOMAXPROCS(vlib.EnvInt("VERIF_PROCS", 1)))
 	installHook()
 	defer verifhook.Set(nil)
+	// Real-time watchdog: a scenario whose bubble makes no progress is abandoned (its events are
+	// dropped, it is counted, never a verdict) and the run continues in a fresh bubble.  After an
+	// abandonment no further gate is armed (a goroutine of the abandoned bubble must never meet a
+	// channel of another bubble).
+	wd := time.Duration(vlib.EnvInt("VERIF_WATCHDOG_S", 20)) * time.Second
+	maxAbandon := vlib.EnvInt("VERIF_MAX_ABANDON", 3)
 	sum := map[string]int{}
+	gating := true
 	for i, ln := range lines {
 		var b beh
 		if err := json.Unmarshal(ln, &b); err != nil {
 			t.Fatalf("behaviour %d: %v", i, err)
 		}
-		synctest.Test(t, func(t *testing.T) { runBehaviour(tr, &b, sum) })
-		sum["behaviours"]++
+		if sum["abandoned"] >= maxAbandon {
+			sum["not_run"]++
+			continue
+		}
+		r := &rec{}
+		lsum := map[string]int{}
+		done := make(chan struct{})
+		g := gating
+		go func() {
+			defer close(done)
+			synctest.Test(t, func(t *testing.T) { runBehaviour(r, &b, lsum, g) })
+		}()
+		timer := time.NewTimer(wd)
+		select {
+		case <-done:
+			timer.Stop()
+			r.mu.Lock()
+			for _, e := range r.evs {
+				tr.Emit(e)
+			}
+			r.mu.Unlock()
+			for k, v := range lsum {
+				sum[k] += v
+			}
+			sum["behaviours"]++
+		case <-timer.C:
+			gatePtr.Store(nil)
+			gating = false
+			sum["abandoned"]++
+			tr.Reset()
+			tr.Emit(ev{"ev": "note", "what": fmt.Sprintf("scenario %d abandoned: no progress within %v", i, wd)})
+			fmt.Printf("VERIF_ABANDONED scenario %d: %s\n", i, ln)
+		}
 	}
 	js, _ := json.Marshal(sum)
 	fmt.Printf("VERIF_SUMMARY %s\n", js)
+	if sum["abandoned"] > 0 {
+		// goroutines of abandoned bubbles are still around: leave without waiting for them
+		tr.Close()
+		fmt.Println("PASS (with abandoned scenarios)")
+		os.Exit(0)
+	}
 }
 
 var _ net.Conn
